@@ -36,7 +36,7 @@ def obligations():
     L.append(rt('H2.rt.patch.encode_bin-bits', (4, 2), buf=4, extra=['-DPATCH'], budget=600, fun=['ec_enc_patch_initial_bits']))
     L.append(rt('H2.rt.patch.encode_bin-icdf', (4, 5), buf=4, extra=['-DPATCH'], budget=1500, tier='thorough', fun=['ec_enc_patch_initial_bits']))
     L.append(rt('H2.rt.patch.encode_bin-bit_logp', (4, 1), buf=4, extra=['-DPATCH'], budget=600, fun=['ec_enc_patch_initial_bits']))
-    L.append(rt('H2.rt.shrink.bit_logp-bits', (1, 2), buf=6, extra=['-DSHRINK'], budget=600, fun=['ec_enc_shrink'],
+    L.append(rt('H2.rt.shrink.bit_logp-bits', (1, 2), buf=6, extra=['-DSHRINK'], budget=900, tier='thorough', fun=['ec_enc_shrink'],
                 mask=[r'arithmetic overflow on signed - in .*_this->buf']))
     # H3: division ops with the total as the case selector
     for ft in (2, 3, 5, 7, 16, 17, 255, 256):
